@@ -695,6 +695,8 @@ class Interp:
             return a.term == b.term
         if isinstance(a, VObj) and isinstance(b, VObj) and a.tag.startswith("enum:") and b.tag.startswith("enum:"):
             return z3.BoolVal(a.tag == b.tag)
+        if isinstance(a, VFunc) and isinstance(b, VFunc) and a.kind == b.kind and a.kind in ("extern", "repo", "builtin", "class"):
+            return z3.BoolVal(a.name == b.name)       # module-level functions / classes are singletons
         return z3.BoolVal(a is b)
 
     def veq(self, a, b, node=None):
